@@ -128,6 +128,21 @@ def gen(rng, tier):
                         lines.append("servers")
                 if via == "rb":
                     lines.append("weights")
+        if rng.random() < 0.15:
+            # rounds of concurrent adds of one (mostly new) server, then its removal: it must be listed once,
+            # and be gone and never selected after one remove
+            for _ in range(rng.randint(20, 30)):
+                k = rng.choice(allkeys)
+                u = "%s %s %s" % k
+                t = "pupsert %d %s" % (rng.randint(8, 16), u)
+                if rng.random() < 0.3:
+                    t += " user=" + rng.choice(["bob", "al"])
+                if rng.random() < 0.5:
+                    t += " w=%d" % rng.choice([1, 2, 3, -1])
+                lines += [t, "servers", "next", "remove " + u, "servers"]
+                lines += ["next"] * rng.randint(1, 3)
+                if rng.random() < 0.3:
+                    lines.append("remove " + u)
         lines.append("servers")
         lines += ["next"] * rng.randint(0, 8)
         yield lines
@@ -217,6 +232,30 @@ def walk(ops, outs):
             if b == "ok":
                 ref.pool.pop(k, None)
             yield ref, ["remove"] + f[1:], b, info
+            continue
+        if f[0] == "pupsert" and len(f) >= 5 and o.startswith("pupsert "):
+            # n goroutines upsert the same URL at once = n sequential upserts
+            n = int(f[1])
+            cnt = dict(t.split("=") for t in o.split()[1:])
+            g = ["upsert"] + f[2:]
+            w = _w(g[1:])
+            if w is not None and w < 0:
+                oo = "err negweight" if int(cnt.get("negweight", 0)) == n else "err pupsert:" + o.replace(" ", "_")
+            else:
+                oo = "ok" if int(cnt.get("ok", 0)) == n else "err pupsert:" + o.replace(" ", "_")
+            k = _key(g[1:])
+            for i in range(n):
+                info = {"known": k in ref.pool, "meterfail": False}
+                if w is not None and w < 0:
+                    info["neg"] = True
+                elif oo == "ok":
+                    if k in ref.pool:
+                        if w is not None:
+                            ref.pool[k][1] = w
+                    else:
+                        ref.pool[k] = [_ustr(g[1:]), w if w else 1]
+                yield ref, g, oo, info
+            yield ref, ["iter-reset"], "", {}     # the harness's holder server is removed at the end
             continue
         if f[0] == "remove-serve" and len(f) == 4 and " ; " in o:
             # a removal, then (atomically after it) the request that was issued while it was in progress
